@@ -20,6 +20,9 @@ from .. import tokenize as T
 
 PROP = "C20"
 BASE = 0x1000
+# program origins: low, just below 64 MiB (bit 26 of the callee addresses set), 128 MiB, 256 MiB and 1 GiB (bits 28, 30: the jal
+# field must not spill into the opcode)
+BASES = [0x1000, 0x03fffff0, 0x08000000, 0x10000000, 0x40000000]
 FID = {"f": 1, "g": 2, "h": 3, "k": 4, "add": 5}
 VARIANTS = ["plain", "sections", "local", "big", "badfile", "unaligned", "mnemonic", "absjal", "shadow_fwd", "shadow_bwd"]
 ABSJAL = 0x0c000100          # jal 0x400: a call to a fixed address, no relocation
@@ -77,7 +80,7 @@ def build_files(sc, variant, d, cid):
     return paths
 
 
-def render(sc, variant, cpu):
+def render(sc, variant, cpu, BASE=BASE):
     lines = [".%s" % cpu, ".big_endian" if variant == "big" else ".little_endian", ".org 0x%x" % BASE]
     n = 0
     own = []
@@ -147,6 +150,7 @@ def run(tier, seed):
     wd = os.path.join(rd, "w")
     os.makedirs(wd)
     jobs, meta = [], {}
+    bases = {}
     for i, sc in enumerate(pick):
         variant = VARIANTS[i % len(VARIANTS)]
         cpu = CPUS[(i // len(VARIANTS)) % len(CPUS)]
@@ -163,9 +167,11 @@ def run(tier, seed):
                     for fn_ in m_:
                         fn_["tail"] = ABSJAL
         cid = "k%d" % i
-        src, end, own = render(sc, variant, cpu)
+        base = BASES[(i // 3) % len(BASES)]
+        src, end, own = render(sc, variant, cpu, base)
         paths = build_files(sc, variant, wd, cid)
         meta[cid] = (sc, variant, cpu, src, end, paths, own)
+        bases[cid] = base
         jobs.append((os.path.join(vdir, "naken_asm"), wd, cid, src, paths))
     with ThreadPoolExecutor(C.NCPU) as ex:
         results = list(ex.map(run_one, jobs))
@@ -189,7 +195,7 @@ def run(tier, seed):
                         b = bytes.fromhex(g)
                         bs += list(b) if variant == "big" else list(b[::-1])
                     claims.append(dict(a=a, b=bs))
-        events.append(dict(id=cid, files=sc["files"], refs=sc["refs"], base=BASE, end=end, big=(variant == "big"),
+        events.append(dict(id=cid, files=sc["files"], refs=sc["refs"], base=bases[cid], end=end, big=(variant == "big"),
                            badfile=(variant == "badfile"), own=own, rc=rc, out=hexb is not None,
                            file=T.LEXERS["hex"](hexb) if hexb is not None else [], syms=syms, claims=claims))
 
